@@ -10,7 +10,7 @@ PROPS_MODULES = ["C17.Props"]
 RUN_MODULE = "C17.Run"
 RUN_FN = "run_case"
 HARNESS_BIN = "c17"
-HARNESS_BINS = ["c17", "c17bb"]
+HARNESS_BINS = ["c17", "c17bb", "c17sni"]
 SHRINK_KEEP = ("sni",)
 CLAIMED = True
 RULE = ("cases: histories of 1-14 add / remove / replace over a committed pool of 10 certificates (openssl; overlapping "
@@ -24,7 +24,7 @@ ASSUMPTIONS = [
     "PEM/x509/key parsing and SHA-256 are oracles: operations carry the parsed (fingerprint, names, expiration); the driver checks them against the real parser for every pool certificate",
     "certificate names with a well-formed /regex/ segment are outside the generated family (the shared trie would treat them as regexes; C04 finding)",
     "HashMap-backed store and index are modelled as association lists with unique keys",
-    "the rustls handshake (ResolvesServerCert::resolve glue, default certificate) is exercised by the black-box tier only (real worker, real handshakes, certificate identified by fingerprint); the 421 call site is not exercised",
+    "the rustls handshake (ResolvesServerCert::resolve glue, default certificate), the https.rs listener glue and the 421 call site of the strict-SNI predicate are exercised by the black-box tiers only (real worker, real handshakes, H1 and H2 requests, counting backend), not by proof",
 ]
 TRUSTED = ["translator props/c17.py:translate pins add-before-remove and the idempotent short-circuit in replace_certificate, the stable sort + last() choice and the remove/insert re-pointing in lib/src/tls.rs"]
 
@@ -159,6 +159,32 @@ def gen_cases(rng, tier):
     return out
 
 
+SNI_REQ_SNIS = [b"a.com", b"www.a.com", b"x.a.com", b"q.a.com", b"b.com", b"w.b.com", b"c.org", b"d.org"]
+SNI_REQ_HOSTS = [b"a.com", b"www.a.com", b"x.a.com", b"q.a.com", b"b.com", b"w.b.com", b"c.org", b"d.org", b"A.com", b"X.A.COM", b"y.x.a.com"]
+SNI_REQ_DECOR = [b"", b"", b"", b":443", b":8443", b".", b".:443"]
+
+
+def strict_sni_case(rng, cid):
+    """handshake with an SNI, then one request whose Host / :authority is covered, not covered, or differs by
+    case / port / trailing dot; H1 and H2; strict binding on (mostly) or off"""
+    P = pool()
+    ops = [["listen", 1 if rng.random() < 0.75 else 0]]
+    for c in rng.sample(P, rng.randint(1, 4)):
+        fp = bytes.fromhex(c["fp"])
+        if rng.random() < 0.35:
+            names = [rng.choice(NAMES + CASE_NAMES + [b"a.com."]) for _ in range(rng.randint(1, 2))]
+            ops.append(["add", c["idx"], 1, 0, fp, c["not_after"]] + names)
+        else:
+            ops.append(["add", c["idx"], 0, 0, fp, c["not_after"]] + [n.encode() for n in c["names"]])
+    for _ in range(rng.randint(6, 14)):
+        sni = rng.choice(SNI_REQ_SNIS)
+        host = rng.choice([sni, sni, rng.choice(SNI_REQ_HOSTS)])
+        if rng.random() < 0.2:
+            host = host.upper()
+        ops.append(["req", sni, rng.choice([1, 2]), host + rng.choice(SNI_REQ_DECOR)])
+    return Case(cid, ops, dict(family="strict-sni"))
+
+
 def extra_stage(tier, rng, work):
     """black-box tier: the same histories through a real worker (command channel) and real TLS handshakes"""
     n = {"quick": 60, "thorough": 1500}.get(tier, 60)
@@ -180,8 +206,32 @@ def extra_stage(tier, rng, work):
     fails = list(problems)
     if missing > len(cases) // 4:
         fails.append("black-box tier: %d of %d cases could not be run" % (missing, len(cases)))
+    # the 421 call site and the https listener glue
+    m = {"quick": 40, "thorough": 800}.get(tier, 40)
+    scases = [strict_sni_case(rng, "sni%d" % i) for i in range(m)]
+    souts, sproblems = vlib.run_harness("c17sni", scases, os.path.join(work, "sni"), "release", shards=4, timeout=1800)
+    fails += list(sproblems)
+    reqs = rejected = smissing = 0
+    for c in scases:
+        o = souts.get(c.id)
+        if o is None or o["panic"] is not None:
+            smissing += 1
+            viols.append((c, "blackbox-crash", "the strict-SNI driver did not finish the case: %s" % (o["panic"] if o else "no output")))
+            continue
+        if any(nn.startswith("invalid-case") for nn in o["notes"]):
+            smissing += 1
+            continue
+        for ob in o["obs"]:
+            if ob and isinstance(ob[0], int):
+                reqs += 1
+                rejected += ob[0] == 421
+        for (vc, vt) in o["viol"]:
+            viols.append((c, vc, vt))
+    if smissing > len(scases) // 4:
+        fails.append("strict-SNI tier: %d of %d cases could not be run" % (smissing, len(scases)))
     return dict(failures=fails, viols=viols,
-                coverage=dict(blackbox_cases=len(cases) - missing, blackbox_handshakes=handshakes))
+                coverage=dict(blackbox_cases=len(cases) - missing, blackbox_handshakes=handshakes,
+                              strict_sni_cases=len(scases) - smissing, strict_sni_requests=reqs, strict_sni_421=rejected))
 
 
 def corpus_cases():
@@ -226,5 +276,6 @@ LEVEL_TEXT = ("Machine-checked proof (Coq 8.16) over an executable model of Cert
               "longest-lived, loaded, covering) evaluated on the implementation.")
 LEVEL_NOTE = ("Trusted: Coq kernel; extraction and ocaml/driver.ml for the correspondence only; certificate parsing and "
               "SHA-256 are oracles; the handshake is tied to the resolver by a black-box tier (real worker, real TLS "
-              "handshakes) and not by proof; the 421 call site of the strict-SNI predicate is not exercised.")
+              "handshakes) and not by proof; so are the 421 call site of the strict-SNI predicate and the https listener glue "
+              "(requests over H1 and H2 against a counting backend, strict binding on and off).")
 TECHNIQUE = "Rocq/Coq proof over an executable Gallina model + differential correspondence (extracted OCaml vs real crate)"
